@@ -879,7 +879,7 @@ func (f *btcsel) Gen(r *hx.Run) {
 		r.Do("sel select 11 15 3 0 4251 2 3 4 1 1000000 252,0 3000:s,3000:w,3000:s,3000:s,2000:w,1000:w,1000:w,1000:w")
 		r.Do("sel sorted 3 5 3 58 6702 1 1 4 1 1000000 - 1000:o,1001:o,1002:s,1003:o,1004:w,1005:w,1006:w,1007:o")
 	}
-	nSel := r.Pick(6000, 80000)
+	nSel := r.Pick(6000, 50000)
 	if os.Getenv("HBTC_NOSEL") != "" {
 		nSel = 0
 	}
